@@ -622,17 +622,21 @@ def _analyze_cond_node(
 def _analyze_cond_operand(
     word, config: Config, cwd: Path, *, remote: bool = False
 ) -> list[Decision]:
-    """Analyze a [[ ]] operand: its parts, or its raw text when it has none
-    (-v a[$(cmd)] arrives as plain text, and bash evaluates the subscript)."""
+    """Analyze a [[ ]] operand: its parts and, always, its raw text.
+
+    The text is what bash expands: -v 'a[$(cmd)]' evaluates the subscript even inside
+    quotes, and on the right of =~ the parser's tree of a substitution is not reliable
+    ($(echo a; rm x) comes back as one command), so the scanner re-reads it.
+    """
+    decisions: list[Decision] = []
     if getattr(word, "parts", None):
-        return _analyze_word_parts(word, config, cwd, remote=remote)
+        decisions.extend(_analyze_word_parts(word, config, cwd, remote=remote))
     value = getattr(word, "value", None)
-    if value and isinstance(value, str) and "'" not in value:
-        # (text containing single quotes is literal there; nothing to expand)
-        return _analyze_string_cmdsubs(
-            value, config, cwd, remote=remote, procsub=True
+    if value and isinstance(value, str):
+        decisions.extend(
+            _analyze_string_cmdsubs(value, config, cwd, remote=remote, procsub=True)
         )
-    return []
+    return decisions
 
 
 def _analyze_word_parts(
